@@ -114,7 +114,7 @@ def m1W : Pc → Nat
   | _ => 0
 /-- between `++readcount` and `--readcount` -/
 def rcW : Pc → Nat
-  | .r5 | .r6 | .r7 | .r8 | .c0 | .rd | .x1 | .x2 | .u1 | .u2 | .e5 | .e6 | .e7 | .e8 | .c2 => 1
+  | .r5 | .r6 | .r7 | .r8 | .c0 | .rd | .ru | .x1 | .x2 | .u1 | .u2 | .e5 | .e6 | .e7 | .e8 | .c2 => 1
   | _ => 0
 /-- first reader waiting for `w` -/
 def r5W : Pc → Nat
@@ -130,7 +130,7 @@ def busyW : Pc → Nat
   | _ => 1
 /-- points only reached after a test `len <= FFT_LEN` succeeded (with a positive `len`) -/
 def posW : Pc → Nat
-  | .rd | .c2 | .d1 | .d2 | .d3 | .d4 | .d5 | .e1 | .e2 | .e3 | .e4 | .e5 | .e6 | .e7 | .e8 | .x1 | .x2 | .x3 | .x4 => 1
+  | .rd | .ru | .c2 | .d1 | .d2 | .d3 | .d4 | .d5 | .e1 | .e2 | .e3 | .e4 | .e5 | .e6 | .e7 | .e8 | .x1 | .x2 | .x3 | .x4 => 1
   | _ => 0
 /-- holding `mutex_1`, about to change `readcount` -/
 def r4W : Pc → Nat
@@ -140,7 +140,7 @@ def b0W : Pc → Nat
   | .b0 => 1
   | _ => 0
 def wtW : Pc → Nat
-  | .wt => 1
+  | .wt | .wu => 1
   | _ => 0
 
 /-- the readers/writers protocol: who holds `mutex_1` and `w`, what `readcount` counts -/
